@@ -146,7 +146,9 @@ func (l *Log) segment(i uint64) *segment {
 		if i > s.prevIndex {
 			return s
 		}
-		if s == l.first {
+		if s == l.first || s.prev == nil {
+			// s.prev is nil, for a view whose leading segments
+			// are removed by RemoveLTE meanwhile
 			return nil
 		}
 		s = s.prev
